@@ -364,7 +364,7 @@ def r4(ctx):
     for c in rec:
         a = [render(x) for x in c["args"]]
         n += 1
-        want = {1: ps[2], 2: ps[3], 3: "base_depth", 4: ps[5], 5: ps[6]}
+        want = {1: ps[2], 2: ps[3], 4: ps[5], 5: ps[6]}       # argument 3 (the root's depth) is decided below, by value
         bad = {i: a[i] for i, w in want.items() if i < len(a) and a[i] != w}
         # every other pass-through parameter keeps its position
         for i in range(4, len(a) - 1):
@@ -382,14 +382,20 @@ def r4(ctx):
         if not ok:
             ctx.violation("recursion/siblings", ctx.where(VISIT_DIR), "the DFS call and the BFS call pass different arguments: %s vs %s" % (a, b))
     # base depth: root's canonical depth at the top level, inherited below
+    # (the value handed on as root depth by the nested calls, evaluated with the directory's own depth = 7)
     locs = Locals(hir)
-    bd = [x for x in walk(hir) if x["k"] == "Let" and x["pat"].get("name") == "base_depth"]
+    import interp
+    handed = {peel(c["args"][3]).get("res") for c in rec if len(c["args"]) > 3 and peel(c["args"][3])["k"] == "Path"}
+    bd = [x for x in walk(hir) if x["k"] == "Let" and x["pat"].get("id") in handed and "init" in x]
     ok = False
-    if len(bd) == 1:
-        import interp
+    if len(bd) == 1 and len(handed) == 1 and all(len(c["args"]) > 3 and peel(c["args"][3])["k"] == "Path" for c in rec):
+        def depth_is_7(node, recv, args, it, env):
+            if str(node.get("callee", "")).endswith("util::calc_depth"):
+                return (7,)
+            return None
         try:
-            top = interp.eval_in(hir, bd[0]["init"], {ps[4]: 0, "canonical_depth": 7})
-            below = [interp.eval_in(hir, bd[0]["init"], {ps[4]: r, "canonical_depth": 7}) for r in (1, 3, 9)]
+            top = interp.eval_in(hir, bd[0]["init"], {ps[4]: 0}, call=depth_is_7)
+            below = [interp.eval_in(hir, bd[0]["init"], {ps[4]: r}, call=depth_is_7) for r in (1, 3, 9)]
             ok = top == 7 and below == [1, 3, 9]
         except interp.Undecided:
             ok = False
